@@ -429,7 +429,7 @@ func (c *Check) scopeProvenance() {
 					if at.Op == "neq" && x == "p:r.TLS" && isNilConst(at.Y) {
 						hasTLS = true
 					}
-					if at.Op == "neq" && x == "builtin.len(p:r.TLS.PeerCertificates)" && Sym(at.Y) == "0" {
+					if x == "builtin.len(p:r.TLS.PeerCertificates)" && at.Y != nil && (((at.Op == "neq" || at.Op == ">") && Sym(at.Y) == "0") || (at.Op == ">=" && Sym(at.Y) == "1")) {
 						hasCert = true
 					}
 					if at.Op == "eq" && isNilConst(at.Y) && strings.HasPrefix(x, "types.AccAddressFromBech32(") && strings.HasSuffix(x, "#1") {
